@@ -29,9 +29,7 @@ func c06Build(id int, raw json.RawMessage) *Job {
 	r := scRenderMode(tc.Items, scModeOf(raw, scSeed))
 	pc := &proto.Case{ID: id, Files: r.files(), Init: json.RawMessage(allOnLocal)}
 	scMaybeProject(pc, r)
-	for i, f := range r.Files {
-		pc.Steps = append(pc.Steps, openStep(f, r.Text[i]))
-	}
+	scOpenSteps(pc, r)
 	d := &c06Data{tc: &tc, r: r}
 	for i, o := range r.Occ {
 		pc.Steps = append(pc.Steps, proto.Step{M: "textDocument/references", P: refParams(r.Files[o.File], o.Line, o.Col)})
